@@ -19,10 +19,8 @@ panics, and the plugin layer never produces such a limiter request).
 `fix: F09b` made the cap an integer computation (`capUnits`, ratio in units of 1e-8): `cap_is_exact_share` and
 `spec_holds_exact_cap` tie it to the exact rational share; `fix: F09d` made metrics scrapes read-only.
 
-Still open:
-  * F09e  production wiring (identity obfuscator): `TrimSpace` folds group values that differ only in surrounding
-          white space into one counter while the allocation table tells them apart
-          (`plugin_spec_holds_groups_partial` + `group_whitespace_violation_witness`).
+`fix: F09e` removed `strings.TrimSpace` from `buildGroupID`: the counter key is the allocation table's group
+(`counters_follow_allocation_groups`, `plugin_spec_holds_groups`).  No finding of C09 is open.
 -/
 namespace LunarVerif.C09
 
@@ -245,12 +243,11 @@ theorem key_of_remedy (r : Remedy) (hs : List (String × String)) (key : Key) (w
     | skip
 
 /-- … and, for a remedy with an allocation table, the lower-cased header NAME and the request's value of that
-    header as `buildGroupID` normalises it (`normGroup`: identity wiring strips surrounding white space and
-    keeps the letter case; the MD5 hash is modelled as injective). -/
+    header, as it is (fix F09e; the MD5 hash of the unit-test wiring is modelled as injective). -/
 theorem key_of_group (r : Remedy) (hs : List (String × String)) (key : Key) (wd : WindowData)
     (a : Alloc) (hn : String) (h : resolve r hs = .limited key wd)
     (ha : r.alloc = some a) (hg : a.groupBy = some hn) :
-    key.group = some (hn.toLower, normGroup r.identityHash (lookupHdr hs hn)) := by
+    key.group = some (hn.toLower, lookupHdr hs hn) := by
   unfold resolve at h
   rw [ha] at h
   dsimp only at h
@@ -258,7 +255,7 @@ theorem key_of_group (r : Remedy) (hs : List (String × String)) (key : Key) (wd
   dsimp only at h
   repeat' split at h
   all_goals first
-    | (injection h with h1 h2; rw [← h1])
+    | (injection h with h1 h2; rw [← h1]; rfl)
     | (exact absurd h (by simp))
     | skip
 
@@ -285,13 +282,13 @@ theorem plugin_spec_holds (cap : CapFn) (ps : List PReq) (hW : ∀ p ∈ ps, p.r
 
 /-! ### Groups as the allocation table distinguishes them (what the judge evaluates) -/
 
-/-- Same counter ⇔ same normalised group value: two requests under one remedy configuration use the same counter
-    key iff their group-header values agree after `buildGroupID`'s normalisation.  Nothing but the header NAME is
-    case-folded, so values differing in letter case never share a counter. -/
-theorem group_counter_iff (r : Remedy) (hs₁ hs₂ : List (String × String)) (k₁ k₂ : Key) (w₁ w₂ : WindowData)
+/-- Same counter ⇔ same group value: two requests under one remedy configuration use the same counter key iff
+    their group-header values are EQUAL (byte for byte: no case folding, no trimming) — distinct values ⇒ distinct
+    counters, same value ⇒ same counter: exactly the allocation table's notion of a group. -/
+theorem group_counter_exact (r : Remedy) (hs₁ hs₂ : List (String × String)) (k₁ k₂ : Key) (w₁ w₂ : WindowData)
     (a : Alloc) (hn : String) (h₁ : resolve r hs₁ = .limited k₁ w₁) (h₂ : resolve r hs₂ = .limited k₂ w₂)
     (ha : r.alloc = some a) (hg : a.groupBy = some hn) :
-    k₁ = k₂ ↔ normGroup r.identityHash (lookupHdr hs₁ hn) = normGroup r.identityHash (lookupHdr hs₂ hn) := by
+    k₁ = k₂ ↔ lookupHdr hs₁ hn = lookupHdr hs₂ hn := by
   have r₁ := key_of_remedy r hs₁ k₁ w₁ h₁
   have r₂ := key_of_remedy r hs₂ k₂ w₂ h₂
   have g₁ := key_of_group r hs₁ k₁ w₁ a hn h₁ ha hg
@@ -302,57 +299,43 @@ theorem group_counter_iff (r : Remedy) (hs₁ hs₂ : List (String × String)) (
   subst r₁ r₂ g₁ g₂
   simp
 
-/-- … in particular with the MD5 wiring, and with the identity wiring for values without surrounding white
-    space: distinct group values ⇒ distinct counters, same value ⇒ same counter (exactly the allocation
-    table's notion of a group). -/
-theorem group_counter_exact (r : Remedy) (hs₁ hs₂ : List (String × String)) (k₁ k₂ : Key) (w₁ w₂ : WindowData)
-    (a : Alloc) (hn : String) (h₁ : resolve r hs₁ = .limited k₁ w₁) (h₂ : resolve r hs₂ = .limited k₂ w₂)
-    (ha : r.alloc = some a) (hg : a.groupBy = some hn)
-    (hnorm : r.identityHash = false ∨
-      (goTrim (lookupHdr hs₁ hn) = lookupHdr hs₁ hn ∧ goTrim (lookupHdr hs₂ hn) = lookupHdr hs₂ hn)) :
-    k₁ = k₂ ↔ lookupHdr hs₁ hn = lookupHdr hs₂ hn := by
-  rw [group_counter_iff r hs₁ hs₂ k₁ k₂ w₁ w₂ a hn h₁ h₂ ha hg]
-  rcases hnorm with h | ⟨h1, h2⟩
-  · simp [normGroup, h]
-  · cases hid : r.identityHash <;> simp [normGroup, h1, h2]
+/-- The counter key of every limiter event IS the group as the allocation table distinguishes it — for every
+    request sequence and every answer list (fix F09e). -/
+theorem counters_follow_allocation_groups (ps : List PReq) (as : List Answer) :
+    groupFaithful (observeP ps as) = true := by
+  simp only [groupFaithful, List.all_eq_true, beq_iff_eq]
+  intro a ha b hb
+  rw [observeP_keys ps as a ha, observeP_keys ps as b hb]
 
-/-- Connection theorem for the judge's grouping (partial: the class of finding F09e is excluded): with the
-    limiter events keyed by (remedy, group value exactly as the allocation table matches it), every model run
-    whose counter keys tell the groups apart the same way satisfies the Spec — per group and aligned window, the
-    group's own share. -/
-theorem plugin_spec_holds_groups_partial (cap : CapFn) (ps : List PReq) (hW : ∀ p ∈ ps, p.remedy.winSec ≠ 0)
-    (hclean : clean (observe ps (pluginRun cap [] ps)) = true)
-    (hfaith : groupFaithful (observeP ps (pluginRun cap [] ps)) = true) :
+/-- Connection theorem for the judge's grouping, at full strength: with the limiter events keyed by (remedy, group
+    value exactly as the allocation table matches it), EVERY model run satisfies the Spec — per group and aligned
+    window, the group's own share; no group's traffic touches another group's counter. -/
+theorem plugin_spec_holds_groups (cap : CapFn) (ps : List PReq) (hW : ∀ p ∈ ps, p.remedy.winSec ≠ 0)
+    (hclean : clean (observe ps (pluginRun cap [] ps)) = true) :
     holds cap (observeS ps (pluginRun cap [] ps)) = true := by
   have h := plugin_spec_holds cap ps hW hclean
   rw [← observeP_code, holds_map_rekey] at h
   rw [observeS, holds_map_rekey, ← h]
   apply holdsOn_congr
   intro a ha b hb
-  simp only [groupFaithful, List.all_eq_true, beq_iff_eq] at hfaith
-  exact (hfaith a ha b hb).symm
-
-/-- F09e.  Production (identity) wiring: the groups " a" and "a" are two rows of the allocation table (50 % of 4
-    each) but `TrimSpace` folds them into one counter: after " a" used its own share, the first request of "a" is
-    rejected although that group sent nothing. -/
-theorem group_whitespace_violation_witness :
-    ∃ ps : List PReq, (∀ p ∈ ps, p.remedy.winSec ≠ 0) ∧
-      clean (observe ps (pluginRun capExact [] ps)) = true ∧
-      groupFaithful (observeP ps (pluginRun capExact [] ps)) = false ∧
-      pluginRun capExact [] ps = [.noop, .noop, .early 429] ∧
-      holds capExact (observeS ps (pluginRun capExact [] ps)) = false := by
-  let r : Remedy := ⟨"r", 4, 1, 0, false, 0,
-    some ⟨some "X-Group", [(" a", 50, 1), ("a", 50, 1)], "block", 0, 1⟩, true⟩
-  refine ⟨[⟨r, [("X-Group", " a")], 1000500000000⟩, ⟨r, [("X-Group", " a")], 1000500000001⟩,
-           ⟨r, [("X-Group", "a")], 1000500000002⟩], ?_, ?_, ?_, ?_, ?_⟩
-  · intro p hp
-    simp only [List.mem_cons, List.not_mem_nil, or_false] at hp
-    rcases hp with rfl | rfl | rfl <;> decide
-  all_goals decide +kernel
+  have hf := counters_follow_allocation_groups ps (pluginRun cap [] ps)
+  simp only [groupFaithful, List.all_eq_true, beq_iff_eq] at hf
+  exact (hf a ha b hb).symm
 
 /-! ### Non-vacuity -/
 
-/-- `group_counter_iff` / `plugin_spec_holds_groups_partial`: production wiring, "Gold" (50 %) and "gold" (20 %) of
+/-- the former F09e witness: " a" and "a" (50 % of 4 each) are different groups with their own counters — after
+    " a" used its share, "a" still gets its own. -/
+example :
+    let r : Remedy := ⟨"r", 4, 1, 0, false, 0,
+      some ⟨some "X-Group", [(" a", 50, 1), ("a", 50, 1)], "block", 0, 1⟩, true⟩
+    let ps : List PReq := [⟨r, [("X-Group", " a")], 1000500000000⟩, ⟨r, [("X-Group", " a")], 1000500000001⟩,
+      ⟨r, [("X-Group", " a")], 1000500000002⟩, ⟨r, [("X-Group", "a")], 1000500000003⟩]
+    pluginRun capExact [] ps = [.noop, .noop, .early 429, .noop] ∧
+    holds capExact (observeS ps (pluginRun capExact [] ps)) = true := by
+  decide +kernel
+
+/-- `group_counter_exact` / `plugin_spec_holds_groups`: production wiring, "Gold" (50 %) and "gold" (20 %) of
     10 are different groups with different counters: "Gold" uses up its 5, "gold" still gets its own 2; an
     unknown "TeamA"/"teama" pair under `use_default_allocation` (30 % → 3 each) likewise. -/
 example :
